@@ -66,7 +66,9 @@ class _ScriptedUniform:
         self._s = wrap_sampler(lambda key, v, sample_shape=(): jnp.asarray(v), name="scripted_u")
 
     def sample(self, lo, hi, **kw):
-        return self._s(jnp.asarray(self.q.pop(0), dtype=jnp.float32))
+        # the script is the standard-uniform quantile of the draw: the bounds the code asks for matter
+        u = jnp.asarray(self.q.pop(0), dtype=jnp.float32)
+        return self._s(jnp.asarray(lo, dtype=jnp.float32) + (jnp.asarray(hi, dtype=jnp.float32) - jnp.asarray(lo, dtype=jnp.float32)) * u)
 
     def logpdf(self, *a, **k):
         return D.uniform.logpdf(*a, **k)
